@@ -6,9 +6,8 @@
 //
 // What is assumed rather than proved (search for "trusted", "funcfield",
 // "iface", "defines"):
-//   * TRUSTED, because the engine cannot execute them: Peer.addConnection and
-//     Peer.removeConnection (the two list primitives; a randomised Go test of
-//     exactly these two contracts on the real code accompanies the report);
+//   * (Peer.addConnection and Peer.removeConnection, the two list primitives,
+//     were trusted in the first version of this file; both are now verified.)
 //   * TRUSTED, out of scope (frames only): Channel.updatePeer (C15 state),
 //     Channel.onClosed, Connection.close, Channel.outboundHandshake;
 //   * user callbacks / environment: Peer.onStatusChanged (counted by the ghost
@@ -192,13 +191,14 @@ package tchannel
 //@   ensures c16Sep(p)
 //@   property C16
 
-// removeConnection is TRUSTED (assumed, not verified): see the report. The
-// engine models `connsPtr *[]*Connection` as an untracked pointer when the
-// function is verified on its own, and drops the return condition of inlined
-// callees that contain a loop, so neither route can discharge this contract.
+// removeConnection: verified with a loop invariant over the visited prefix; the
+// ghost c16rmidx(p) names the position that was overwritten (assigned by the
+// `defines` clause, which only has a meaning inside the function).
 //@ func (p *Peer) removeConnection(connsPtr *[]*Connection, changed *Connection) (found bool)
 //@   effect nonblocking
-//@   trusted
+//@   loop 0 invariant *connsPtr == old(*connsPtr)
+//@   loop 0 invariant forall k int :: off(*connsPtr) <= k && k < off(*connsPtr) + i ==> (*connsPtr)[k - off(*connsPtr)] != changed
+//@   defines found ==> c16rmidx(p) == off(old(*connsPtr)) + i
 //@   nilable changed
 //@   modifies *connsPtr, elems(*connsPtr), c16rmidx(p)
 //@   ensures !found ==> old(c16NotIn(*connsPtr, changed)) && *connsPtr == old(*connsPtr) &&
